@@ -150,6 +150,7 @@ def gen(rng, family, **opts):
         "atoms": atoms,
         "calc": {"kind": opts.get("calc", "soft"), "style": pick(rng, opts.get("styles", ["plain", "keyed"]))},
         "table": gen_table(rng, family, mol, opts),
+        "ctor_defaults": bool(rng.random() < 0.3),
     }
     # scheduling variety: minimum counts (never over-committing the cycles) and intervals
     budget = spec["cycles"]
